@@ -2,6 +2,7 @@ package silence
 
 import (
 	"context"
+	"google.golang.org/protobuf/proto"
 	"time"
 
 	"github.com/prometheus/client_golang/prometheus"
@@ -130,5 +131,45 @@ func VerifC18_SilenceLimits() {
 			vfAssert("replace-creates-new-id", ed.Id != first.Id && len(s.st) == len(before)+1)
 			vfReach("replaced")
 		}
+	}
+}
+
+// VerifC18_SilenceSizeBoundary: the size limit is placed at an arbitrary distance
+// around the encoded size of the submitted silence. Whatever Set decides, a silence
+// that ends up stored is never larger than the limit (the stored form carries the id
+// and the update time, which the submitted form lacks), and a refusal stores nothing.
+//
+//vf:bounds unwind=12 decisions=200
+//vf:expect reach=stored reach=refused
+//vf:note encoded sizes are a stand-in in the engine (field counts and string lengths); the limit is expressed relative to the measured size so that witnesses replay natively
+func VerifC18_SilenceSizeBoundary() {
+	limit := 0
+	s, err := New(Options{
+		Retention: time.Hour,
+		Metrics:   prometheus.NewRegistry(),
+		Limits:    Limits{MaxSilenceSizeBytes: func() int { return limit }},
+	})
+	if err != nil {
+		panic(err)
+	}
+	now := vfNow()
+	sil := &pb.Silence{
+		MatcherSets: []*pb.MatcherSet{{Matchers: []*pb.Matcher{{Type: pb.Matcher_EQUAL, Name: "job", Pattern: "a"}}}},
+		StartsAt:    timestamppb.New(now),
+		EndsAt:      timestamppb.New(now.Add(time.Hour)),
+		Comment:     "a comment",
+	}
+	base := proto.Size(s.toMeshSilence(sil))
+	limit = base + vfIntRange("slack", -40, 120)
+	vfAssume(limit > 0)
+	serr := s.Set(context.Background(), sil)
+	if serr != nil {
+		vfAssert("refusal-stores-nothing", len(s.st) == 0)
+		vfReach("refused")
+		return
+	}
+	vfReach("stored")
+	for _, ms := range s.st {
+		vfAssert("stored-silence-within-size-limit", proto.Size(ms) <= limit)
 	}
 }
